@@ -25,13 +25,13 @@ LEVEL_NOTE = (
     "Partial: confluence of reduce with the three substitution stages is a theorem for expressions and transactions when all the "
     "reductions involved succeed (that an error on one schedule is an error on the others is explored per case, and is "
     "where the known finding lives); the compiler pass in a schedule is explored exhaustively per case (up to 384 "
-    "schedules), not a theorem; the hypotheses WF and Sealed are evaluated on every generated template (tags wf-holds, "
-    "sealed-holds). "
+    "schedules), not a theorem; the hypotheses WF and Sealed are theorems for every transaction the lowering model "
+    "produces (lowerTx_sealed_WF) and are evaluated on every generated template (tags wf-holds, sealed-holds). "
     "Known finding C07-query-error-masked is reported, not suppressed silently."
 )
 PROP = "C07"
-LEAN_TARGETS = ["Tx3Proofs.C07", "Tx3Proofs.C07Reduce", "Tx3Proofs.C07Confluence", "Tx3Proofs.C07Tx"]
-AUDIT_MODULES = ["Tx3Proofs.C07", "Tx3Proofs.C07Reduce", "Tx3Proofs.C07Confluence", "Tx3Proofs.C07Tx"]
+LEAN_TARGETS = ["Tx3Proofs.C07", "Tx3Proofs.C07Reduce", "Tx3Proofs.C07Confluence", "Tx3Proofs.C07Tx", "Tx3Proofs.C06Lower"]
+AUDIT_MODULES = ["Tx3Proofs.C07", "Tx3Proofs.C07Reduce", "Tx3Proofs.C07Confluence", "Tx3Proofs.C07Tx", "Tx3Proofs.C06Lower"]
 THEOREMS = [
     "Tx3.Expr.C07_args_fees", "Tx3.Expr.C07_args_inputs", "Tx3.Expr.C07_fees_inputs",
     "Tx3.Stage.commute_expr", "Tx3.C07_apply_commute",
@@ -40,6 +40,7 @@ THEOREMS = [
     "Tx3.reduce_sealed", "Tx3.confl_args", "Tx3.reduceF_det", "Tx3.confl_stage", "Tx3.Stage.isStage",
     "Tx3.C07_reduce_commutes_with_stage", "Tx3.C07_reduce_then_stage", "Tx3.C07_two_stages", "Tx3.sealedb_Sealed",
     "Tx3.Tx.mapM_rel", "Tx3.C07_tx_reduce_commutes_with_stage",
+    "Tx3.Lang.lowerTx_sealed_WF",
 ]
 
 RULE = (
